@@ -8,6 +8,7 @@ from Crypto.Cipher import AES
 from .. import core, drive
 from ..indep import envmodel, mcbor
 from . import common
+from ..mon import faults
 
 ENCRYPT_SCRIPT = os.path.join(core.REPO, "ncs", "encrypt_script.py")
 KMS_SCRIPT = os.path.join(core.REPO, "ncs", "basic_kms.py")
@@ -145,6 +146,7 @@ def check_artifacts(outdir, key, kid, plaintext, hash_alg):
     return v, res["iv"]
 
 
+@faults.guarded()
 def run_encrypt(route, firmware, key_name, kid, keysdir, outdir, hash_alg, wd):
     """-> exception or None"""
     try:
